@@ -375,6 +375,10 @@ def monitor(mol, planted_ok, b):
             removed += 1
             if not warned:
                 return ('cover/removed-without-warning', {'atom': n}), info
+            # ... a warning about THIS removal: one of the unknown-input warnings names the atom
+            name = str(pre[n].get('atomname'))
+            if not any(name in r[2] for r in cap.of_type('unknown-input')):
+                return ('cover/removed-without-warning', {'atom': n, 'atomname': name, 'warnings_given': [r[2][:160] for r in cap.of_type('unknown-input')][:4]}), info
     # anchors' replacements
     for resnodes, ptms, ident in calls:
         for m, match in (ident or []):
